@@ -5,12 +5,12 @@
    Proved for ALL histories: no error state and get / rm / count answer like a dictionary, also when notifier
    registrations create and release value-less nodes in between; complete / abandoned qb_map_foreach visits every
    present key exactly once.  NOT proved here (checked on generated scripts against the implementation by the
-   monitor of vlib/maptrie.py, see reports/maptrie.md): the ORDER of the visits as a statement about keys (the
-   traversal is proved to be the pre-order of present nodes), prefix iteration, the notifier calls made, destroy. *)
+   monitor of vlib/maptrie.py, see reports/maptrie.md): prefix iteration, explicit iterator operations, the notifier
+   calls made, destroy. *)
 From Coq Require Import List ZArith.
 Require Import Verif.gen.Consts_trie Verif.MapTrieModel Verif.MapTrieSpec Verif.MapTrieProofs Verif.MapTrieProofs2
                Verif.MapTrieProofs3 Verif.MapTrieRefuted Verif.MapTrieIter Verif.MapTrieIds Verif.MapTrieIter4
-               Verif.MapTrieIter6.
+               Verif.MapTrieIter6 Verif.MapTrieOrder.
 Import ListNotations.
 
 (* TRIE_CHAR2INDEX as modelled equals the macro of the working tree on all 256 byte values (table regenerated
@@ -76,12 +76,19 @@ Print Assumptions C17T_pointer_denotes_its_node.
 (* ITERATION, all histories: dictionary operations, notifier registrations and qb_map_foreach calls (complete, or
    abandoned by the callback at its stop-th call) in any order: no error state - the traversal loops of lib/map.c /
    trie_node_next never run out of fuel -, dictionary answers as above, and every traversal visits the first [stop]
-   entries (all for stop = 0) of a duplicate-free enumeration of exactly the present keys with their values
-   (hist_ok / enum in MapTrieIter6.v), leaving the map and every reference count as they were *)
+   entries (all for stop = 0) of an enumeration of exactly the present keys with their values, without duplicates
+   and strictly ascending in the trie's key order klt (hist_ok / enum in MapTrieIter6.v), leaving the map and every
+   reference count as they were *)
 Theorem C17T_foreach_all_histories : forall fx hs, f_rm fx = true -> Forall iop_valid hs ->
   exists outs t', run fx trie_init (map iop_op hs) = (outs, Ok t') /\ hist_ok [] hs outs.
 Proof. exact trie_foreach_all_histories. Qed.
 Print Assumptions C17T_foreach_all_histories.
+
+(* klt is the order of the signed char values of the bytes (a proper prefix first): what "ascending" means for the
+   trie (the difference to strcmp order for bytes >= 0x80 is the known finding C17-trie-signed-byte-order) *)
+Theorem C17T_key_order_is_signed_char_order : forall x y, x < 256 -> y < 256 -> (c2i y < c2i x <-> (sgn x < sgn y)%Z).
+Proof. exact c2i_signed. Qed.
+Print Assumptions C17T_key_order_is_signed_char_order.
 
 (* the code AS FOUND violates it: rm("ab") after put("abc"), put("abd") reports success and the count drops
    (replayed on the real library; repaired by fixes/C17-trie-rm-alive.patch) - the hypotheses of the theorem
